@@ -219,8 +219,60 @@ def make_spec(case_spec, params):
     return s
 
 
+REAL_DRIVER = __import__("os").path.join(__import__("os").path.dirname(__import__("os").path.abspath(__file__)), "realproc_driver.py")
+
+
+def realproc_job(job):
+    """Stub fidelity: the real multiprocessing module, real SIGKILL, real clock.  Soundness of what
+    is reported, warning when the search of an intractable kernel was cut, no child left."""
+    import os
+    import subprocess
+    import sys
+    import tempfile
+    agg = batch.Agg()
+    cs = job["case"]
+    root = lcdcheck.CTX["root"]
+    fd, path = tempfile.mkstemp(prefix="verif-k-", suffix=".s", dir=root)
+    with os.fdopen(fd, "w") as f:
+        f.write(cs["text"])
+    try:
+        envv = dict(os.environ, VERIF_SCRATCH_ROOT=root, VERIF_REPO=env.REPO, PYTHONHASHSEED="0")
+        p = subprocess.run([sys.executable, REAL_DRIVER, cs["arch"], path, str(job["timeout"]), str(job["ncpu"]),
+                            str(job.get("threshold", "-"))], capture_output=True, text=True, timeout=1500, env=envv)
+        line = next((l for l in p.stdout.split("\n") if l.startswith("RESULT ")), None)
+        agg.notes["realproc_runs"] += 1
+        if p.returncode != 0 or line is None:
+            agg.harness_errors.append("real-process driver failed rc=%d: %s" % (p.returncode, (p.stderr or p.stdout)[-400:]))
+            return agg.to_dict()
+        r = json.loads(line[7:])
+        agg.notes["realproc_elapsed_s_total"] += int(r["elapsed"] + 0.5)
+        agg.samples.append({"real-process": cs["name"], "timeout": job["timeout"], "workers": job["ncpu"], "result": r})
+
+        def viol(cls, detail):
+            agg.violations.append({"property": PROP, "class": cls, "site": "real-multiprocessing", "detail": detail,
+                                   "facts": r, "spec": {"property": PROP, "kind": "realproc", "case": cs, "timeout": job["timeout"],
+                                                        "ncpu": job["ncpu"], "threshold": job.get("threshold", "-")},
+                                   "choices": [], "verif_seed": job["seed"], "run_index": 0, "subcheck": "real-process",
+                                   "event_log_sha1": "", "event_log_tail": []})
+
+        if r["unsound"]:
+            viol("unsound_partial_result", "real run reported chains that are not cycles of the graph: %r" % (r["unsound"],))
+        if r["children_alive"]:
+            viol("worker_left_behind", "children still alive after the analysis returned: %r" % (r["children_alive"],))
+        if job.get("expect_cut") and not r["timed_out"]:
+            viol("missing_warning", "intractable kernel, timeout %s: no time-out flag" % job["timeout"])
+        if job["timeout"] == -1 and r["timed_out"]:
+            viol("false_warning", "time-out flag with timeout -1")
+        agg.notes["realproc_sound_and_reaped"] += int(not agg.violations)
+    finally:
+        os.unlink(path)
+    return agg.to_dict()
+
+
 def run_job(job):
     """job = {"case": case_spec, "n": runs, "seed": verif_seed, "tag": str, "first": idx}"""
+    if job.get("kind") == "realproc":
+        return realproc_job(job)
     agg = batch.Agg()
     cs = job["case"]
     t_job = batch.real_now()
@@ -274,6 +326,10 @@ def run_job(job):
 
 def replay_once(spec, choices):
     """Re-execute one case; returns (list of violations, digest)."""
+    if spec.get("kind") == "realproc":
+        d = realproc_job({"kind": "realproc", "case": spec["case"], "timeout": spec["timeout"], "ncpu": spec["ncpu"],
+                          "threshold": spec.get("threshold", "-"), "seed": 0})
+        return d["violations"], "", []
     case = lcdcheck.get_case(spec["case"])
     ref = lcdcheck.get_ref(case)
     ch = Chooser(replay=choices)
@@ -355,7 +411,7 @@ def archs_for(tier):
 
 def build_jobs(tier, seed):
     cases, dense = build_cases(tier, seed)
-    n_tr = 36 if tier == "quick" else 1200
+    n_tr = 36 if tier == "quick" else 160
     n_dense = 6 if tier == "quick" else 60
     jobs = []
     for cs in dense:
@@ -366,13 +422,25 @@ def build_jobs(tier, seed):
             jobs.append({"case": dict(cs, ref_cap=15000), "n": min(per, total - first), "first": first,
                          "seed": seed, "tag": "sim-timeout-dense"})
     for cs in cases:
-        per = 12 if tier == "quick" else 100
+        per = 12 if tier == "quick" else 80
         for first in range(0, n_tr, per):
             jobs.append({"case": cs, "n": min(per, n_tr - first), "first": first, "seed": seed,
                          "tag": "sim-timeout"})
     cs, params = d2_scenario()
     jobs.append({"case": cs, "n": 1, "first": 0, "seed": seed, "tag": "known-finding-scenario",
                  "params": params})
+    # stub fidelity: a few runs on the real multiprocessing module with the real clock
+    long_lcd = [c for c in dense if "long_LCD" in c["name"]]
+    gen_dense = [c for c in dense if "long_LCD" not in c["name"]]
+    real = []
+    if long_lcd:
+        real.append({"case": long_lcd[0], "timeout": 1, "ncpu": 4, "expect_cut": True})
+    for j, c in enumerate(gen_dense[: (2 if tier == "quick" else 12)]):
+        real.append({"case": c, "timeout": [0, 1, 2][j % 3], "ncpu": [3, 16, 5][j % 3], "threshold": 1})
+    for j, c in enumerate(cases[: (2 if tier == "quick" else 12)]):
+        real.append({"case": c, "timeout": [-1, 10][j % 2], "ncpu": [5, 2][j % 2], "threshold": 1})
+    for r in real:
+        jobs.insert(0, dict(r, kind="realproc", seed=seed))
     return jobs
 
 
@@ -381,6 +449,8 @@ SHRINKERS = None
 
 def shrink_job(job):
     from . import flow, shrink
+    if job["v"]["spec"].get("kind") == "realproc":
+        return dict(job["v"], minimised={"note": "real-process run; not minimised"})
     shr = [shrink.drop_text_lines(("case", "text")), shrink.lower_int("workers")]
     return flow.do_shrink(job["v"], replay_once, shr)
 
@@ -436,6 +506,7 @@ def det_job(job):
         rs = derive_seed(seed, PROP, "det", i)
         params = run_params(random.Random(rs), case.klen, ref["lines"], ref["tractable"])
         spec = make_spec(cs, params)
+        spec["max_steps"] = 12000  # a capped run is as deterministic as a complete one, and cheaper
         ch = Chooser(seed=rs)
         r1 = lcdcheck.execute(spec, ch)
         r2 = lcdcheck.execute(spec, Chooser(seed=rs))
